@@ -152,6 +152,44 @@ def run(ctx):
             return source_matrix(pkey, out.mat, row)
         add_stat(cls_name + ".mate", xoprob, runp)
 
+    # crossover probabilities ASSIGNED FROM A GENETIC MAP (Haldane): the map's distances are -ln(1-2p)/2, so the declared
+    # probabilities are the layout's; the matrix was built with other genetic positions and annotated with another map first
+    # (a revised map must replace whatever positions the matrix held)
+    def map_annotated_parents(xoprob):
+        from pybrops.popgen.gmat.DensePhasedGenotypeMatrix import DensePhasedGenotypeMatrix
+        from pybrops.popgen.gmap.StandardGeneticMap import StandardGeneticMap
+        from pybrops.popgen.gmap.HaldaneMapFunction import HaldaneMapFunction
+        Lx = len(xoprob)
+        chrgrp = np.cumsum([1 if p == 0.5 else 0 for p in xoprob]).astype("int64")
+        phy = np.arange(10, 10 + 7 * Lx, 7, dtype="int64")
+        gen = np.zeros(Lx)
+        for j in range(1, Lx):
+            gen[j] = 0.0 if xoprob[j] == 0.5 else gen[j - 1] - math.log(1.0 - 2.0 * xoprob[j]) / 2.0
+        mat = np.empty((2, 4, Lx), dtype="int8")
+        for i in range(4):
+            mat[0, i, :] = 2 * i; mat[1, i, :] = 2 * i + 1
+        pg = DensePhasedGenotypeMatrix(mat=mat, taxa=np.array(["par%02d" % i for i in range(4)], dtype=object),
+                                       taxa_grp=np.zeros(4, dtype="int64"), vrnt_chrgrp=chrgrp, vrnt_phypos=phy,
+                                       vrnt_genpos=np.linspace(0.0, 0.02, Lx), vrnt_xoprob=np.full(Lx, 0.3))
+        pg.group_vrnt()
+        first = StandardGeneticMap(vrnt_chrgrp=chrgrp, vrnt_phypos=phy, vrnt_genpos=phy.astype(float) * 1e-4)
+        pg.interp_xoprob(first, HaldaneMapFunction())
+        revised = StandardGeneticMap(vrnt_chrgrp=chrgrp, vrnt_phypos=phy, vrnt_genpos=gen)
+        pg.interp_xoprob(revised, HaldaneMapFunction())
+        return pg
+    for pkey in ("2wdh", "2w") if "2wdh" in PROTOS and "2w" in PROTOS else list(PROTOS)[:2]:
+        xoprob = layouts[0] if pkey.endswith("dh") else layouts[2]
+        cls_name, npar = PROTOS[pkey]
+        cls = getattr(importlib.import_module("pybrops.breed.prot.mate." + cls_name), cls_name)
+        row = [0, 1, 2, 3][:npar]
+        def runm(nn, seed, cls=cls, pkey=pkey, xoprob=xoprob, row=row):
+            g = np.random.default_rng(seed)
+            pg = map_annotated_parents(xoprob)
+            out = cls(rng=g).mate(pg, np.array([row]), 1, nn, nself=0) if pkey.endswith("dh") else \
+                cls(rng=g).mate(pg, np.array([row]), nn, 1, nself=0)
+            return source_matrix(pkey, out.mat, row)
+        add_stat(cls_name + ".mate[xoprob from a revised genetic map]", xoprob, runm)
+
     tl = [{k: v for k, v in c.items() if k not in ("run", "xoprob")} for c in stat]
     verd = cases.validate(ctx, "MeiosisProb_Trace", "MeiosisProb_Trace.cfg", allc + tl, "MeiosisProb_Trace",
                           chunk=40, procs=14)
